@@ -28,6 +28,62 @@ def run(ctx, rep):
                      'labelling structure of the plot helpers; that plotly draws every row is not decided.')
     m1(ctx, rep)
     m2(ctx, rep)
+    m3(ctx, rep)
+
+
+def m3(ctx, rep):
+    """State held by an object that was passed in (prototype.__kwargs__, a dict inside a model, ...) is not edited in place.
+
+    M1 tracks a parameter and its direct views; this rule adds one level: a container reached as `<param>.<attr>` or
+    `getattr(<param>, '<attr>'[, default])`, bound to a local or used directly, must not receive an in-place mutator
+    (update / append / pop / item store ...) unless a copy was taken.  `self` / `cls` are not parameters in this sense."""
+    prog = ctx.prog
+    rep.rule('M3.state', 'no public callable edits in place a container reached through an attribute of one of its parameters')
+    muts = set(K.MUTATOR_METHODS) | {'update', 'setdefault', 'pop', 'popitem', 'clear', 'append', 'extend', 'insert', 'remove', 'sort', 'reverse', 'add', 'discard'}
+    n = 0
+    for fn in prog.public_callables():
+        params = set(fn.data_params) | ({fn.vararg} if fn.vararg else set())
+        params.discard(fn.self_name)
+        params -= {'self', 'cls'}
+        if not params:
+            continue
+
+        def reaches(e):
+            """name of the parameter when e is <param>.<attr> / getattr(<param>, ...), else None"""
+            if isinstance(e, ast.Attribute) and isinstance(e.value, ast.Name) and e.value.id in params and prog.resolve(fn.module, e) is None:
+                return e.value.id, e.attr
+            if isinstance(e, ast.Call) and isinstance(e.func, ast.Name) and e.func.id == 'getattr' and len(e.args) >= 2 and isinstance(e.args[0], ast.Name) \
+                    and e.args[0].id in params:
+                return e.args[0].id, const_value(e.args[1]) or '?'
+            return None
+        held = {}  # local name -> (param, attr)
+        for s_ in walk_no_nested(fn.node):
+            if isinstance(s_, ast.Assign) and len(s_.targets) == 1 and isinstance(s_.targets[0], ast.Name):
+                r = reaches(s_.value)
+                others = [a for a in walk_no_nested(fn.node) if isinstance(a, ast.Assign) and a is not s_
+                          and any(isinstance(t, ast.Name) and t.id == s_.targets[0].id for t in a.targets)]
+                if r is not None and not others:
+                    held[s_.targets[0].id] = r
+        n += 1
+        found = False
+        for x in walk_no_nested(fn.node):
+            tgt = None
+            if isinstance(x, ast.Call) and isinstance(x.func, ast.Attribute) and x.func.attr in muts:
+                recv = x.func.value
+                tgt = held.get(recv.id) if isinstance(recv, ast.Name) else reaches(recv)
+            elif isinstance(x, ast.Subscript) and isinstance(x.ctx, (ast.Store, ast.Del)):
+                recv = x.value
+                tgt = held.get(recv.id) if isinstance(recv, ast.Name) else reaches(recv)
+            elif isinstance(x, ast.AugAssign) and isinstance(x.target, ast.Name) and x.target.id in held:
+                tgt = held[x.target.id]
+            if tgt is not None:
+                found = True
+                rep.bad('M3.state', fn, x, f'`{short(x, 50)}` edits `{tgt[0]}.{tgt[1]}` in place: the object the caller passed as `{tgt[0]}` is changed '
+                        '(a later use of it sees the edit)', construct=f'{tgt[0]}.{tgt[1]}')
+        if not found and held:
+            rep.ok('M3.state', fn, fn.node.name, f'containers reached through {sorted({p for p, _a in held.values()})} are only read', construct='state of passed-in objects')
+    if n == 0:
+        rep.ok('M3.state', 'package', None, 'no public callable takes object parameters', construct='state of passed-in objects')
 
 
 def m1(ctx, rep):
